@@ -2,6 +2,7 @@ import RTV.Drv.Match
 import RTV.Drv.WellFormed
 import RTV.Drv.DefiniteRange
 import RTV.Drv.Unit
+import RTV.Drv.UnitCompound
 import RTV.Drv.Num
 import RTV.Drv.NumFrac
 import RTV.Drv.NumCjk
@@ -43,6 +44,7 @@ def dispatch (line : String) : String :=
       <|> dispatchWF op args
       <|> dispatchDefRange op args
       <|> dispatchUnit op args
+      <|> dispatchUnitCompound op args
       <|> dispatchResGen op args
       <|> dispatchFactory op args
       <|> dispatchRe op args
@@ -77,14 +79,28 @@ def dispatch (line : String) : String :=
       ).getD "bad-op"
   | _ => "bad-op"
 
-partial def loop (h : IO.FS.Stream) (out : IO.FS.Stream) : IO Unit := do
+/-- A `panic!` raised while an operation is evaluated (a malformed numeric field: `RTV.Drv.parseNat` / `parseInt`; an
+out-of-range `get!` in a model) writes to the Lean-level stderr stream, which `main` points at `errBuf`: the operation is
+then answered `err:BadArg` / `err:Panic` instead of a value computed from a silently defaulted field. -/
+partial def loop (h : IO.FS.Stream) (out : IO.FS.Stream) (errBuf : IO.Ref IO.FS.Stream.Buffer) (orig : IO.FS.Stream) : IO Unit := do
   let line ← h.getLine
   if line.isEmpty then return ()
   let l := if line.endsWith "\n" then (line.dropEnd 1).toString else line
-  out.putStrLn (dispatch l)
-  loop h out
+  let ans ← IO.lazyPure fun _ => dispatch l
+  let eb ← errBuf.get
+  if eb.data.size > 0 then
+    errBuf.set {}
+    let msg := (String.fromUTF8? eb.data).getD "PANIC (undecodable message)"
+    orig.putStrLn (((msg.splitOn "\n").headD "") ++ "   [operation: " ++ ((l.splitOn "\t").headD "") ++ "]")
+    out.putStrLn (if (msg.splitOn "BadArg").length > 1 then "err:BadArg" else "err:Panic")
+  else
+    out.putStrLn ans
+  loop h out errBuf orig
 
 def main : IO Unit := do
   let out ← IO.getStdout
-  loop (← IO.getStdin) out
+  let orig ← IO.getStderr
+  let errBuf ← IO.mkRef ({} : IO.FS.Stream.Buffer)
+  let _ ← IO.setStderr (IO.FS.Stream.ofBuffer errBuf)
+  loop (← IO.getStdin) out errBuf orig
   out.flush
